@@ -65,20 +65,20 @@ type vamanaConfig struct {
 }
 
 var vamanaConfigs = []vamanaConfig{
-	{vecConfig{"euclidean", models.DistanceEuclidean, 6, "none", ""}, 75, 64, 1.2},
-	{vecConfig{"euclidean-tight", models.DistanceEuclidean, 3, "none", ""}, 25, 32, 1.1},
-	{vecConfig{"cosine", models.DistanceCosine, 8, "none", ""}, 40, 32, 1.5},
-	{vecConfig{"dot", models.DistanceDot, 5, "none", ""}, 75, 32, 1.2},
-	{vecConfig{"haversine", models.DistanceHaversine, 2, "none", ""}, 30, 32, 1.3},
-	{vecConfig{"hamming", models.DistanceHamming, 40, "none", ""}, 50, 48, 1.2},
-	{vecConfig{"jaccard", models.DistanceJaccard, 20, "none", ""}, 25, 32, 1.5},
-	{vecConfig{"euclidean+bin-fixed-hamming", models.DistanceEuclidean, 24, "bin-fixed", models.DistanceHamming}, 40, 32, 1.2},
-	{vecConfig{"cosine+bin-learned-jaccard", models.DistanceCosine, 16, "bin-learned", models.DistanceJaccard}, 60, 64, 1.2},
-	{vecConfig{"euclidean+bin-learned-hamming", models.DistanceEuclidean, 70, "bin-learned", models.DistanceHamming}, 25, 32, 1.1},
-	{vecConfig{"euclidean+pq", models.DistanceEuclidean, 8, "pq", ""}, 50, 32, 1.2},
-	{vecConfig{"dot+pq", models.DistanceDot, 6, "pq", ""}, 75, 64, 1.5},
-	{vecConfig{"cosine+pq", models.DistanceCosine, 8, "pq", ""}, 30, 32, 1.2},
-	{vecConfig{"euclidean-dim1", models.DistanceEuclidean, 1, "none", ""}, 25, 32, 1.1},
+	{vecConfig{"euclidean", models.DistanceEuclidean, 6, "none", "", ""}, 75, 64, 1.2},
+	{vecConfig{"euclidean-tight", models.DistanceEuclidean, 3, "none", "", ""}, 25, 32, 1.1},
+	{vecConfig{"cosine", models.DistanceCosine, 8, "none", "", ""}, 40, 32, 1.5},
+	{vecConfig{"dot", models.DistanceDot, 5, "none", "", ""}, 75, 32, 1.2},
+	{vecConfig{"haversine", models.DistanceHaversine, 2, "none", "", ""}, 30, 32, 1.3},
+	{vecConfig{"hamming", models.DistanceHamming, 40, "none", "", ""}, 50, 48, 1.2},
+	{vecConfig{"jaccard", models.DistanceJaccard, 20, "none", "", ""}, 25, 32, 1.5},
+	{vecConfig{"euclidean+bin-fixed-hamming", models.DistanceEuclidean, 24, "bin-fixed", models.DistanceHamming, ""}, 40, 32, 1.2},
+	{vecConfig{"cosine+bin-learned-jaccard", models.DistanceCosine, 16, "bin-learned", models.DistanceJaccard, ""}, 60, 64, 1.2},
+	{vecConfig{"euclidean+bin-learned-hamming", models.DistanceEuclidean, 70, "bin-learned", models.DistanceHamming, ""}, 25, 32, 1.1},
+	{vecConfig{"euclidean+pq", models.DistanceEuclidean, 8, "pq", "", ""}, 50, 32, 1.2},
+	{vecConfig{"dot+pq", models.DistanceDot, 6, "pq", "", ""}, 75, 64, 1.5},
+	{vecConfig{"cosine+pq", models.DistanceCosine, 8, "pq", "", ""}, 30, 32, 1.2},
+	{vecConfig{"euclidean-dim1", models.DistanceEuclidean, 1, "none", "", ""}, 25, 32, 1.1},
 }
 
 func vamanaCases(prop string, tier string, seed uint64) []fw.Case {
